@@ -49,6 +49,7 @@ fn main() {
         "hist" => by_kind!(kind, hist, &args),
         "reorder" => by_kind!(kind, reorder, &args),
         "replay" => by_kind!(kind, replay, &args),
+        "bggc" => by_kind!(kind, bggc, &args),
         #[cfg(feature = "idx")]
         "tdd" => drv_mv::tdd(&args),
         #[cfg(feature = "idx")]
